@@ -26,16 +26,22 @@ def rule_r1(ctx):
             if s.node.get("k") == "mem" and s.node["f"] == "cb_fn" and g.name not in ("nni_pipe_run_cb", "nni_sock_set_pipe_cb"):
                 ctx.fail(r, g, "pipe callback read outside nni_pipe_run_cb", s.line, "%s reads s_pipe_cbs[].cb_fn" % g.name)
     r.ob(f, "cb_fn read only in nni_pipe_run_cb / nni_sock_set_pipe_cb")
-    first = {}
-    mono = {}
-    for b in f.blocks.values():
-        c = f.cond(b.id) if b.term and len(b.succs) == 2 else None
-        if c is None or c.get("k") != "bin" or "p_last_event" not in show(c["lhs"]):
-            continue
-        if c["op"] == "==" and "NNG_PIPE_EV_NONE" in show(c["rhs"]):
-            first[b.id] = 1          # fine when last_event != NONE ...
-        if c["op"] in (">=", "<") and show(c["rhs"]) == "ev":
-            mono[b.id] = 1 if c["op"] == ">=" else 0
+    evp = f.params[1]["n"] if len(f.params) > 1 else "ev"
+
+    def is_last(n):
+        return n is not None and n.get("k") == "mem" and n["f"] == "p_last_event"
+
+    def is_ev(n):
+        return n is not None and n.get("k") == "var" and n["n"] == evp
+
+    def is_enum(name):
+        return lambda n: n is not None and n.get("k") == "enum" and n["n"] == name
+    # p_last_event < ev, and the two halves of "never started and this is not ADD_PRE", in any spelling
+    mono = G.rel_edges(f, is_last, is_ev, "<")
+    first = dict(G.rel_edges(f, is_last, is_enum("NNG_PIPE_EV_NONE"), "!="))
+    first.update(G.rel_edges(f, is_ev, is_enum("NNG_PIPE_EV_ADD_PRE"), "=="))
+    has_first = bool(G.rel_edges(f, is_last, is_enum("NNG_PIPE_EV_NONE"), "!=")) and \
+        bool(G.rel_edges(f, is_ev, is_enum("NNG_PIPE_EV_ADD_PRE"), "=="))
     store = G.stores(f, "p_last_event")
     for s in inv:
         if mono and G.dominated(f, (s.b, s.i), mono):
@@ -47,10 +53,13 @@ def rule_r1(ctx):
             r.ob(f, "p_last_event = ev stored before the callback")
         else:
             ctx.fail(r, f, "event not recorded before callback", s.line, "p_last_event is not updated before the callback runs")
-    if first:
-        r.ob(f, "pipes that never got ADD_PRE get no later event")
-    else:
-        ctx.fail(r, f, "first-event filter missing", f.line, "the test p_last_event == NNG_PIPE_EV_NONE && ev != ADD_PRE is gone")
+    for s in inv:
+        if has_first and G.dominated(f, (s.b, s.i), first):
+            r.ob(f, "pipes that never got ADD_PRE get no later event")
+        else:
+            ctx.fail(r, f, "first-event filter missing", s.line,
+                     "the callback is reachable with p_last_event == NNG_PIPE_EV_NONE and ev != NNG_PIPE_EV_ADD_PRE: a pipe whose "
+                     "ADD_PRE was never delivered gets later events", G.path_lines(f, (f.entry, 0), (s.b, s.i), first))
     from ..locks import lockinfo
     info = lockinfo(f)
     for s in inv:
@@ -172,20 +181,22 @@ def rule_r4(ctx):
     cb = prog.need("dialer_connect_cb", "core/dialer.c")
     TERMINAL = {"NNG_ECLOSED", "NNG_ECANCELED", "NNG_ESTOPPED"}
     tstart = G.positions(cb.calls(("nni_dialer_timer_start", "dialer_timer_start_locked")))
-    term_blocks = set()
-    ok_block = set()
-    for b in cb.blocks.values():
-        lb = b.label
-        if lb and lb.get("kind") == "case":
-            v = lb.get("v") or {}
-            if v.get("k") == "enum" and v.get("n") in TERMINAL:
-                term_blocks.add(b.id)
-            if lb.get("cv") == 0:
-                ok_block.add(b.id)
+    # the result variable of the connect aio, and the edges on which it is known to be success or a terminal code
+    rvar = None
+    for s_ in cb.calls("nni_aio_result"):
+        for n in cb.sites():
+            if n.node.get("k") == "asg" and n.node["lhs"].get("k") == "var" and cb.expand(n.node["rhs"]) is not None and \
+                    cb.expand(n.node["rhs"]).get("_id") == s_.node.get("_id"):
+                rvar = n.node["lhs"]["n"]
+            if n.node.get("k") == "decls":
+                for d in n.node["d"]:
+                    ini = cb.expand(d["init"]) if d.get("init") else None
+                    if ini is not None and ini.get("_id") == s_.node.get("_id"):
+                        rvar = d["n"]
+    if rvar is None:
+        raise AnalysisBroken("dialer_connect_cb: result of nni_aio_result is not kept in a local")
+    settled = G.value_known_edges(cb, rvar, names=TERMINAL, values={0})
     nouser = G.cond_edges(cb, lambda n: n.get("k") == "var" and n["n"] == "user_aio", want_nonzero=True)
-    seen = cb.reach((cb.entry, 0), blocked=lambda b, i, e: (b, i) in tstart,
-                    edge_ok=lambda b, k: cb.blocks[b].succs[k] not in term_blocks and cb.blocks[b].succs[k] not in ok_block
-                    and not (b in nouser and k == nouser[b] and any(x in cb.blocks[b].preds or True for x in [0]) and False))
     # paths on which a user aio exists are allowed to skip the timer (the user is told instead): cut the
     # user_aio != NULL edge of the test that guards the timer start
     guard = {}
@@ -194,8 +205,7 @@ def rule_r4(ctx):
         if other is not None and any((other, i) in tstart for i in range(len(cb.blocks[other].elems) + 1)):
             guard[b] = k
     seen = cb.reach((cb.entry, 0), blocked=lambda b, i, e: (b, i) in tstart,
-                    edge_ok=lambda b, k: cb.blocks[b].succs[k] not in term_blocks and cb.blocks[b].succs[k] not in ok_block
-                    and not (b in guard and k == guard[b]))
+                    edge_ok=lambda b, k: (b, k) not in settled and not (b in guard and k == guard[b]))
     if not tstart:
         ctx.fail(r, cb, "no redial", cb.line, "dialer_connect_cb never restarts the dial timer")
     elif (cb.exit, 0) in seen:
